@@ -19,7 +19,7 @@ from .. import seams
 from ..seams import quiet
 
 PROP = 'C20'
-TIERS = {'quick': 4500, 'thorough': 50000}
+TIERS = {'quick': 4500, 'thorough': 500000}
 RULE = ('each run: a stream of 1-12 well-formed commands (I<n>=, <v>!, O<n>?, K<n>;) with 1-10 upper-case hex digits, '
         'or 1-8 direct responses of 1-8 nibbles, or decoder and encoder chained; producer gaps and consumer READY '
         'seeded; non-trivial = >= 2 commands handled and (a stall hit while a character was pending or characters '
